@@ -474,6 +474,19 @@ def call_builtin(ex, name, args, kwargs, line, node=None):
         if len(args) == 2:
             raise Unsupported('log with base')
         return np_log(ex, a0, line)
+    if name == 'np.where' and len(args) == 3:
+        # numpy: a NEW array, element j is x[j] where the mask holds and y[j] elsewhere (x, y arrays of the mask's length or scalars)
+        from . import arrays
+        c, x, y = args
+        if not (isinstance(c, Arr) and c.ndim == 1 and c.elem == BOOL):
+            raise Unsupported('np.where with a condition that is not a 1-D boolean array (line %s)' % line)
+        for o in (x, y):
+            if isinstance(o, Arr):
+                if o.ndim != 1:
+                    raise Unsupported('np.where on rank>1 operands (line %s)' % line)
+                ex.oblige('bounds', tm.eq(to_term(c.shape[0]), to_term(o.shape[0])), label='broadcast', line=line, note='np.where operands have the length of the mask')
+        pick = lambda o, j: tm.to_real(arrays.elem1(o, j)) if isinstance(o, Arr) else tm.to_real(to_term(o))
+        return arrays.pointwise(ex, c.shape[0], 'where', REAL, lambda j: tm.ite(arrays.elem1(c, j), pick(x, j), pick(y, j)))
     if name in ('sqrt', 'math.sqrt', 'np.sqrt'):
         return _unary_real(ex, 'sqrt', a0, line)
     if name in ('cos', 'math.cos', 'np.cos'):
